@@ -249,4 +249,66 @@ theorem sim_keyAtRank {x : GPS grow} {st : Store} (h : Sim x st) (r : F64) :
   | pinf => exact hm
   | nan => exact hm
 
+
+/-! ### mutators -/
+
+theorem nonneg_of_not_lt_zero (c : F64) (hc : F64.lt c (.fin 0) = false) : ∀ w, c = .fin w → 0 ≤ w := by
+  intro w hw; subst hw
+  simp only [F64.lt, decide_eq_false_iff_not] at hc
+  exact Rat.not_lt.mp hc
+
+/-- `AddWithCount(i, c)`: int32 index, and a finite count is `≥ 0` (a non-finite count leaves both sides unchanged) -/
+theorem sim_addWithCount {x : GPS grow} {st : Store} (h : Sim x st) (i : Int) (hi32 : Idx32 i) (c : F64)
+    (hc : ∀ w, c = .fin w → 0 ≤ w) :
+    Sim (StoreI.AddWithCount x i c : GPS grow) (StoreI.AddWithCount st i c) := by
+  obtain ⟨s, s', cap, hx, rfl, hi, hi', hcs⟩ := id h
+  cases c with
+  | fin w =>
+    have hw : 0 ≤ w := hc w rfl
+    obtain ⟨s1, h1, hi1, hc1⟩ :=
+      Props.C04Pag.add_content s hi i hi32 w hw (decide ((s.buffer.length : Int) = cap))
+    obtain ⟨s1', h1', hi1', hc1'⟩ := Props.C04Pag.add_content s' hi' i hi32 w hw true
+    have hspec := addWithCountSpec s cap grow i w (addFuel s i + 1) (Nat.le_succ _)
+    rw [h1] at hspec
+    obtain ⟨g', hg', cap1, rfl⟩ := hspec
+    refine ⟨s1, s1', cap1, ?_, ?_, hi1, hi1', by rw [hc1, hc1', hcs]⟩
+    · simp only [gps_addWithCount, gAddWithCount, ratOfF64, hx, ofGen_toGen, hg', okOr_ok]
+    · simp only [GenSketch.store_addWithCount, GenSketch.storeAddF, Sketch.addF, Store.addWithCount, h1',
+        Option.map_some, Option.getD_some]
+  | pinf => exact h
+  | ninf => exact h
+  | nan => exact h
+
+theorem addWithCount_one (s : PStore) (i : Int) (b : Bool) : s.addWithCount i 1 b = s.addUnit i b := by
+  unfold PStore.addWithCount
+  rw [if_neg (by decide), if_pos rfl]
+
+/-- `Add(i)`: int32 index -/
+theorem sim_add {x : GPS grow} {st : Store} (h : Sim x st) (i : Int) (hi32 : Idx32 i) :
+    Sim (StoreI.Add x i : GPS grow) (StoreI.Add st i) := by
+  obtain ⟨s, s', cap, hx, rfl, hi, hi', hcs⟩ := h
+  obtain ⟨s1, h1, hi1, hc1⟩ :=
+    Props.C04Pag.addUnit_content s hi i hi32 (decide ((s.buffer.length : Int) = cap))
+  obtain ⟨s1', h1', hi1', hc1'⟩ := Props.C04Pag.add_content s' hi' i hi32 1 (by decide) true
+  have hspec := addSpec s cap grow i (addFuel s i + 1) (Nat.le_succ _)
+  rw [h1] at hspec
+  obtain ⟨g', hg', cap1, rfl⟩ := hspec
+  refine ⟨s1, s1', cap1, ?_, ?_, hi1, hi1', by rw [hc1, hc1', hcs]⟩
+  · simp only [gps_add, gAdd, hx, ofGen_toGen, hg', okOr_ok]
+  · simp only [GenSketch.store_add, Store.addWithCount, h1', Option.map_some, Option.getD_some]
+
+theorem sim_clear {x : GPS grow} {st : Store} (h : Sim x st) :
+    Sim (StoreI.Clear x : GPS grow) (StoreI.Clear st) := by
+  obtain ⟨s, s', cap, hx, rfl, hi, hi', _⟩ := h
+  obtain ⟨a1, a2⟩ := Props.C04Pag.clear_content s hi
+  obtain ⟨b1, b2⟩ := Props.C04Pag.clear_content s' hi'
+  refine ⟨s.clear, s'.clear, cap, ?_, rfl, a1, b1, by rw [a2, b2]⟩
+  simp only [gps_clear, gClear, hx, GenPag.clear_spec, okOr_ok]
+
+theorem sim_copy {x : GPS grow} {st : Store} (h : Sim x st) :
+    Sim (StoreI.Copy x : GPS grow) (StoreI.Copy st) := by
+  obtain ⟨s, s', cap, hx, rfl, hi, hi', hc⟩ := h
+  refine ⟨s, s', (s.buffer.length : Int), ?_, rfl, hi, hi', hc⟩
+  simp only [gps_copy, gCopy, hx, copy_spec, okOr_ok]
+
 end DDS.GenPagSketch
